@@ -90,11 +90,28 @@ WellFormed(G)   == NonProductive(G) = {} /\ Unreachable(G) = {}
 WellFormedLL(G) == WellFormed(G) /\ LeftRecursive(G) = {}
 
 (***************************************************************************)
-(* Textbook cross-characterisations used as model-checking sanity          *)
-(* invariants: they tie the fixpoint definitions to the language.          *)
+(* Cross-characterisations used as model-checking sanity invariants: they  *)
+(* tie the fixpoint definitions to the bounded language through the length *)
+(* of a shortest derivable string (Bellman-Ford over the productions).     *)
 (***************************************************************************)
-\* every derivation of a shortest string needs at most |nts| nested levels, and with right-hand
-\* sides of length <= r a shortest string has length <= r^|nts|; callers pass n large enough.
-ProductiveByLang(G, n) == {A \in G.nts : LangAll(G, n)[A] # {}}
-NullableByLang(G)      == {A \in G.nts : <<>> \in LangAll(G, 0)[A]}
+Inf == 1000000
+RECURSIVE SumLen(_, _, _)
+SumLen(G, M, rhs) ==
+  IF rhs = <<>> THEN 0
+  ELSE LET h == IF IsNT(G, Head(rhs)) THEN M[Head(rhs)] ELSE 1
+           t == SumLen(G, M, Tail(rhs))
+       IN IF h >= Inf \/ t >= Inf THEN Inf ELSE h + t
+RECURSIVE MinLenLfp(_, _)
+MinLenLfp(G, M) ==
+  LET M2 == [A \in G.nts |-> Min({M[A]} \cup {SumLen(G, M, Rhs(G, i)) : i \in ProdsOf(G, A)})]
+  IN IF M2 = M THEN M ELSE MinLenLfp(G, M2)
+MinLen(G) == MinLenLfp(G, [A \in G.nts |-> Inf])
+
+DefsAgreeWithLang(G, n) ==
+  LET M == MinLen(G)
+      L == LangAll(G, n)
+  IN /\ Productive(G) = {A \in G.nts : M[A] < Inf}
+     /\ Nullable(G) = {A \in G.nts : M[A] = 0}
+     /\ \A A \in G.nts : IF M[A] <= n THEN L[A] # {} /\ Min({Len(w) : w \in L[A]}) = M[A]
+                                       ELSE L[A] = {}
 =============================================================================
